@@ -218,7 +218,15 @@ impl HitObjectsState {
             Ok(())
         };
 
-        self.point_split(point_str.split('|'), f)
+        let res = self.point_split(point_str.split('|'), f);
+
+        // A failed conversion must not leave the control points of earlier
+        // segments behind for the next slider.
+        if res.is_err() {
+            self.curve_points.clear();
+        }
+
+        res
     }
 
     /// Process a slice of points and store them in internal buffers.
